@@ -81,21 +81,34 @@ fn exercise(z: &Zoo) -> Result<u64, String> {
     #[allow(non_snake_case)]
     let CAP = cap as usize;
     if let Some(pb) = z.primitive_bounding_box() {
-        // contains() on the corners and centre of the box and a margin
+        // contains() on the corners and centre of the box and a margin ...
         for q in [pb.top_left, pb.top_left - Point::new(1, 1), pb.center(), pb.top_left + pb.size, Point::new(1024, -1024)] {
             if let Some(c) = z.contains(q) {
                 steps += c as u64;
             }
         }
+        // ... on a 7 x 7 grid over the box and a margin of 2, and just inside each of the four corners
+        let (w, h) = (pb.size.width as i32 + 4, pb.size.height as i32 + 4);
+        for gy in 0..7 {
+            for gx in 0..7 {
+                let q = pb.top_left - Point::new(2, 2) + Point::new(w * gx / 6, h * gy / 6);
+                steps += z.contains(q).unwrap_or(false) as u64;
+            }
+        }
+        let (iw, ih) = (pb.size.width as i32, pb.size.height as i32);
+        for (cx, cy) in [(1, 1), (iw - 2, 1), (1, ih - 2), (iw - 2, ih - 2), (iw / 8, ih / 8), (iw - 1 - iw / 8, ih - 1 - ih / 8)] {
+            steps += z.contains(pb.top_left + Point::new(cx, cy)).unwrap_or(false) as u64;
+        }
     }
+    steps += constructors(z);
     // points() / pixels() counted without collecting (no allocation allowed in here)
     let np = count_points(z, CAP);
     if np >= CAP as u64 {
-        return Err("points() exceeded the step budget".into());
+        return Err("nontermination: points() exceeded the step budget".into());
     }
     let nx = count_pixels(z, CAP);
     if nx >= CAP as u64 {
-        return Err("pixels() exceeded the step budget".into());
+        return Err("nontermination: pixels() exceeded the step budget".into());
     }
     steps += np + nx;
     let mut t = NullTarget { bb: Rectangle::new(Point::new(-2048, -2048), Size::new(4096, 4096)), n: 0, sum: 0 };
@@ -109,6 +122,112 @@ fn exercise(z: &Zoo) -> Result<u64, String> {
     steps += rejections(z);
     steps += null_font_text(z);
     Ok(steps)
+}
+
+/// the other public constructors of each family, built from the same geometry: bounding_box, contains, draw
+fn constructors(z: &Zoo) -> u64 {
+    use embedded_graphics::primitives::*;
+    use embedded_graphics::text::{Baseline, Text};
+    let mut t = NullTarget { bb: Rectangle::new(Point::new(-2048, -2048), Size::new(4096, 4096)), n: 0, sum: 0 };
+    let st = z.style;
+    let mut n = 0u64;
+    match &z.geo {
+        Geo::Rect(r) => {
+            let c = Rectangle::with_center(r.center(), r.size);
+            let k = Rectangle::with_corners(r.top_left, r.top_left + r.size);
+            n += c.contains(r.top_left) as u64 + k.contains(r.top_left) as u64;
+            c.into_styled(st).draw(&mut t).unwrap();
+            RoundedRectangle::with_equal_corners(*r, Size::new(r.size.width / 3, r.size.height / 2 + 1)).into_styled(st).draw(&mut t).unwrap();
+        }
+        Geo::Circle(c) => {
+            let k = Circle::with_center(c.center(), c.diameter);
+            n += k.contains(c.center()) as u64 + k.bounding_box().size.width as u64;
+            k.into_styled(st).draw(&mut t).unwrap();
+            Arc::from_circle(*c, 30.0.deg(), 200.0.deg()).into_styled(st).draw(&mut t).unwrap();
+            Sector::from_circle(*c, (-45.0).deg(), 400.0.deg()).into_styled(st).draw(&mut t).unwrap();
+        }
+        Geo::Ellipse(e) => {
+            let k = Ellipse::with_center(e.center(), e.size);
+            n += k.contains(e.center()) as u64;
+            k.into_styled(st).draw(&mut t).unwrap();
+        }
+        Geo::RRect(r) => {
+            let k = RoundedRectangle::with_equal_corners(r.rectangle, r.corners.top_left);
+            n += k.contains(r.rectangle.center()) as u64 + k.confine_radii().corners.top_left.width as u64;
+            k.into_styled(st).draw(&mut t).unwrap();
+        }
+        Geo::Arc(a) => {
+            let k = Arc::with_center(a.center(), a.diameter, a.angle_start, a.angle_sweep);
+            n += k.bounding_box().size.width as u64;
+            k.into_styled(st).draw(&mut t).unwrap();
+        }
+        Geo::Sector(a) => {
+            let k = Sector::with_center(a.center(), a.diameter, a.angle_start, a.angle_sweep);
+            n += k.contains(a.center()) as u64;
+            k.into_styled(st).draw(&mut t).unwrap();
+        }
+        Geo::Line(l) => {
+            let k = Line::with_delta(l.start, l.end - l.start);
+            n += k.midpoint().x as u64 & 1;
+            k.into_styled(st).draw(&mut t).unwrap();
+            n += k.translate(Point::new(3, -3)).into_styled(st).bounding_box().size.width as u64;
+        }
+        Geo::Tri(tr) => {
+            let k = Triangle::from_slice(&tr.vertices);
+            n += k.contains(tr.vertices[1]) as u64;
+        }
+        Geo::Text { pos, font, s, .. } => {
+            use embedded_graphics::mono_font::MonoTextStyle;
+            let cs = MonoTextStyle::new(FONTS[*font], TEXT);
+            for b in [Baseline::Top, Baseline::Bottom, Baseline::Middle, Baseline::Alphabetic] {
+                let txt = Text::with_baseline(STRINGS[*s], *pos, cs, b);
+                n += txt.bounding_box().size.width as u64;
+                txt.draw(&mut t).unwrap();
+            }
+            Text::new(STRINGS[*s], *pos, cs).draw(&mut t).unwrap();
+            Text::with_alignment(STRINGS[*s], *pos, cs, embedded_graphics::text::Alignment::Center).draw(&mut t).unwrap();
+        }
+        _ => {}
+    }
+    n + t.n
+}
+
+/// recorded finding K08_subimage_area_overflow (known_findings.txt): a sub image area whose extent is >= 2^31 or whose
+/// top_left + size exceeds i32::MAX is not rejected but panics in `Point + Size`. Decided from the INPUT (the area), so
+/// that any other panic of sub_image stays an unlisted violation.
+fn extreme_sub_image_areas(z: &Zoo) -> Result<(), String> {
+    use embedded_graphics::image::{ImageDrawable, ImageDrawableExt, ImageRaw};
+    if let Geo::Image { size, data, .. } = &z.geo {
+        let raw: ImageRaw<Rgb565> = ImageRaw::new(data, *size).unwrap();
+        let areas = [
+            Rectangle::new(Point::new(1, 0), Size::new(2147483648, 1)),
+            Rectangle::new(Point::new(0, 0), Size::new(1, u32::MAX)),
+            Rectangle::new(Point::new(i32::MAX, i32::MAX), Size::new(5, 5)),
+            Rectangle::new(Point::new(2, 2), Size::new(2147483646, 3)),
+            Rectangle::new(Point::new(i32::MIN, i32::MIN), Size::new(u32::MAX, u32::MAX)),
+            Rectangle::new(Point::new(i32::MIN, 0), Size::new(2147483647, 2147483647)),
+            Rectangle::new(Point::new(-5, -5), Size::new(2147483647, 7)),
+        ];
+        for area in areas {
+            // the class predicate (= K08_subimage_area_overflow of coq/Model/Overflow.v): bottom_right of the area overflows
+            let (x, y, w, h) = (area.top_left.x as i64, area.top_left.y as i64, area.size.width as i64, area.size.height as i64);
+            let in_class = w > 0 && h > 0 && (w > i32::MAX as i64 || h > i32::MAX as i64 || x + w > i32::MAX as i64 || y + h > i32::MAX as i64);
+            let r = catch_unwind(AssertUnwindSafe(|| {
+                let mut t = NullTarget { bb: Rectangle::new(Point::zero(), Size::new(64, 64)), n: 0, sum: 0 };
+                raw.sub_image(&area).draw(&mut t).unwrap();
+                t.n
+            }));
+            if r.is_err() {
+                let loc = LAST_PANIC.with(|p| p.borrow().clone());
+                let msg = LAST_PANIC_MSG.with(|p| p.borrow().clone());
+                if in_class {
+                    return Err(format!("class=K08_subimage_area_overflow sub_image({:?}) panics at {} ({})", area, loc, msg));
+                }
+                return Err(format!("panic at {} ({}) in sub_image({:?}) (area in no recorded class)", loc, msg, area));
+            }
+        }
+    }
+    Ok(())
 }
 
 /// the null font (`MonoTextStyleBuilder::new()` without `.font()`: zero-sized glyphs) with every baseline and
@@ -188,7 +307,7 @@ fn adapters(z: &Zoo, bb: &Rectangle) -> Result<u64, String> {
         t.clipped(area).fill_solid(other, Rgb565::new(3, 2, 1)).unwrap();
         t.cropped(area).clear(Rgb565::new(3, 2, 1)).unwrap();
         if t.n > 12 * budget() + 1_000_000 {
-            return Err("adapter drawing exceeded the step budget".into());
+            return Err("nontermination: adapter drawing exceeded the step budget".into());
         }
         n += t.n;
     }
@@ -289,10 +408,15 @@ pub fn run(suite: &str, a: &[&str]) -> Option<String> {
                 if after != before && HUNG.load(Ordering::Relaxed) == 0 {
                     format!("FAIL alloc: {} heap allocations during library calls", after - before)
                 } else {
-                    format!("OK {}", steps)
+                    // outside the allocation window (a caught panic allocates its message)
+                    match catch_unwind(AssertUnwindSafe(|| extreme_sub_image_areas(&z))) {
+                        Ok(Ok(())) => format!("OK {}", steps),
+                        Ok(Err(e)) => format!("FAIL {}", e),
+                        Err(_) => "FAIL panic in the harness (extreme_sub_image_areas)".into(),
+                    }
                 }
             }
-            Ok(Err(e)) => format!("FAIL nontermination: {}", e),
+            Ok(Err(e)) => format!("FAIL {}", e),
             Err(_) => {
                 // every overflow defect known so far is repaired: a panic is always an unlisted violation
                 let loc = LAST_PANIC.with(|p| p.borrow().clone());
@@ -432,6 +556,36 @@ fn ok_suite(suite: &str, a: &[&str]) -> Option<String> {
             let l1 = Line::new(pt(a[0], a[1]), pt(a[2], a[3]));
             let l2 = Line::new(pt(a[4], a[5]), pt(a[6], a[7]));
             verdict(|| embedded_graphics::primitives::verif_hooks::line_intersection(l1, l2))
+        }
+        "ok_index" => {
+            let k = us(a[0]);
+            verdict(|| (Point::new(3, 4)[k], Size::new(5, 6)[k]))
+        }
+        "ok_from_slice" => {
+            let v: Vec<Point> = (0..us(a[0])).map(|k| Point::new(k as i32, 1)).collect();
+            verdict(|| Triangle::from_slice(&v))
+        }
+        "ok_new_const" => {
+            let data = vec![0u8; us(a[3])];
+            let sz = Size::new(u(a[0]), u(a[1]));
+            match a[2] {
+                "1" => verdict(|| ImageRaw::<BinaryColor>::new_const(&data, sz)),
+                "8" => verdict(|| ImageRaw::<Gray8>::new_const(&data, sz)),
+                "16" => verdict(|| ImageRaw::<Rgb565>::new_const(&data, sz)),
+                _ => verdict(|| ImageRaw::<Rgb888>::new_const(&data, sz)),
+            }
+        }
+        "ok_extents" => {
+            let l = Line::new(pt(a[0], a[1]), pt(a[2], a[3]));
+            verdict(|| embedded_graphics::primitives::verif_hooks::line_extents(l, u(a[4]), a[5].parse::<u8>().unwrap()))
+        }
+        "ok_join" => verdict(|| {
+            embedded_graphics::primitives::verif_hooks::line_join(2, pt(a[0], a[1]), pt(a[2], a[3]), pt(a[4], a[5]), u(a[6]), a[7].parse::<u8>().unwrap())
+        }),
+        "ok_thick_points" => {
+            let l = Line::new(pt(a[0], a[1]), pt(a[2], a[3]));
+            let st = PrimitiveStyle::with_stroke(Rgb565::new(1, 2, 3), u(a[4]));
+            verdict(|| l.into_styled(st).pixels().take(20_000_000).count())
         }
         "ok_measure" | "ok_draw_plain" => {
             // custom mono font: x y baseline n underline cw ch sp bl uo uh
